@@ -982,6 +982,7 @@ class _DtypeLint:
 
     def __init__(self, ctx, model, coord_attrs=('x', 'y', 'xy'), sums=True, int_descr_kinds=()):
         self.ctx, self.m = ctx, model
+        self.negations = bool(int_descr_kinds)        # sizes are scalars: a unary minus on an unsigned one wraps
         self.int_descr_kinds = set(int_descr_kinds)   # descriptor classes whose stored value may be a fixed-width numpy integer
         self.sums = sums        # also report sums/differences of possibly-integer coordinate arrays (offsets)
         self.coord_attrs = set(coord_attrs)     # attributes whose value keeps the caller's (possibly fixed-width) integer type
@@ -1087,7 +1088,11 @@ class _DtypeLint:
         if isinstance(n, ast.Subscript):
             return self.kind(fi, n.value, env, depth)
         if isinstance(n, ast.UnaryOp):
-            return self.kind(fi, n.operand, env, depth)
+            k_ = self.kind(fi, n.operand, env, depth)
+            if isinstance(n.op, ast.USub) and k_ == 'coord' and self.sums and self.negations:
+                self.problems.append((fi, n, f'`{ast.unparse(n)}` negates a value in its own dtype (for an unsigned integer -4 is 252)'))
+                return 'float'
+            return k_
         if isinstance(n, (ast.Tuple, ast.List)):
             return self._join(self.kind(fi, e, env, depth) for e in n.elts) if n.elts else 'scalar'
         if isinstance(n, ast.IfExp):
